@@ -73,14 +73,28 @@ def include_hash():
 FORBIDDEN = re.compile(r"\b(Admitted|admit|Axiom|Axioms|Parameter|Parameters|Conjecture|Hypothesis|Variable)\b|Unset Guard|bypass_check|type-in-type|impredicative-set|Admit Obligations")
 
 
+def strip_coq_comments(text):
+    """remove (possibly nested) (* ... *) comments, keeping newlines so line numbers survive"""
+    out, depth, i, n = [], 0, 0, len(text)
+    while i < n:
+        if text.startswith("(*", i):
+            depth += 1; i += 2
+        elif text.startswith("*)", i) and depth > 0:
+            depth -= 1; i += 2
+        else:
+            if depth == 0 or text[i] == "\n":
+                out.append(text[i])
+            i += 1
+    return "".join(out)
+
+
 def coq_gate():
-    """grep gate over the development: no admits, axioms, disabled checks.  `Variable`/`Hypothesis` are
-    allowed only inside a Section (checked crudely: the file must contain a Section before them)."""
+    """gate over the development: no admits, axioms or disabled checks anywhere (comments ignored).
+    `Variable`/`Hypothesis` are accepted only inside a Section."""
     bad = []
     for f in sorted(tree_files(COQ, {".v"})):
         depth = 0
-        for n, line in enumerate(open(f), 1):
-            code = re.sub(r"\(\*.*?\*\)", "", line)
+        for n, code in enumerate(strip_coq_comments(open(f).read()).splitlines(), 1):
             if re.match(r"\s*Section\b", code):
                 depth += 1
             if re.match(r"\s*End\b", code) and depth > 0:
@@ -89,7 +103,7 @@ def coq_gate():
             if m:
                 if m.group(1) in ("Variable", "Hypothesis") and depth > 0:
                     continue
-                bad.append("%s:%d: %s" % (os.path.basename(f), n, line.strip()))
+                bad.append("%s:%d: %s" % (os.path.basename(f), n, code.strip()))
     return bad
 
 
